@@ -455,6 +455,25 @@ func runCheck(prop, tier string, writeBaseline, verbose bool, t0 time.Time) int 
 	prog, err := LoadProgram("verif")
 	if err != nil {
 		fmt.Fprintln(os.Stderr, "load:", err)
+		// Does the tree build without the contract files? Then the code changed under the contracts
+		// (a field or function they name is gone): the claimed obligations cannot be generated, which is
+		// a violation report, not an error of the run.
+		if plain, err2 := LoadProgram(""); err2 == nil {
+			plain.Cleanup()
+			if selftestChild {
+				fmt.Printf("VIOLATION property=%s obligation=contracts-do-not-compile\n", prop)
+				return 1
+			}
+			dir := filepath.Join(verifDir, "replays", prop)
+			os.MkdirAll(dir, 0755)
+			path := filepath.Join(dir, "contracts-do-not-compile.json")
+			rec := map[string]interface{}{"property": prop, "obligation": "contracts-do-not-compile", "status": "missing",
+				"reason": "the tree builds, but not together with the contract files (-tags verif): the code no longer has what the contracts of this property name, so none of its obligations can be generated", "load_error": err.Error()}
+			b, _ := json.MarshalIndent(rec, "", " ")
+			os.WriteFile(path, append(b, '\n'), 0644)
+			fmt.Printf("VIOLATION property=%s replay=%s obligation=contracts-do-not-compile no-failing-input-found\n", prop, path)
+			return 1
+		}
 		// a tree that does not build cannot be checked; this is an error of the run, not a verdict
 		return 2
 	}
